@@ -22,6 +22,8 @@ type CASpec struct {
 	NoInfo   bool // no ChipAuthenticationInfo for this key (terminal infers 3DES / MSE:Set KAT)
 	NoInfoID bool // ChipAuthenticationInfo without keyId although the key has one
 	Clone    bool // chip does not hold the private key
+	// AlsoCiphers: further ChipAuthenticationInfo entries for the SAME key, listed after the first in this order
+	AlsoCiphers []int
 }
 
 type AASpec struct {
@@ -150,7 +152,7 @@ func Build(cfg Config) *Perso {
 	for i, ca := range cfg.CA {
 		curve := refpki.CurveByName(ca.Curve)
 		key := refpki.DeriveECKey(curve, fmt.Sprintf("ca-%d", i))
-		chip.CA = append(chip.CA, &refchip.CAKey{KeyID: ca.KeyID, Key: key, Cipher: ca.Cipher, NoPrivateKey: ca.Clone})
+		chip.CA = append(chip.CA, &refchip.CAKey{KeyID: ca.KeyID, Key: key, Cipher: ca.Cipher, NoPrivateKey: ca.Clone, AlsoCiphers: ca.AlsoCiphers})
 		algOID, params := ecSPKIParts(curve, ca.Explicit)
 		pk := reflds.SecInfo{Kind: "ca-pk", OID: "0.4.0.127.0.7.2.2.1.2", AlgOID: algOID, AlgParams: params, PubKey: key.Point()}
 		if ca.KeyID != nil {
@@ -163,6 +165,11 @@ func Build(cfg Config) *Perso {
 				info.HasID, info.ID = true, *ca.KeyID
 			}
 			caInfos = append(caInfos, info)
+			for _, also := range ca.AlsoCiphers {
+				more := info
+				more.OID = caOID(also)
+				caInfos = append(caInfos, more)
+			}
 		}
 	}
 	dgSet := map[int]bool{1: true}
